@@ -867,7 +867,9 @@ func main() {
 	// ---------------- Enumeration B ----------------
 	covB := enumB(thorough, samples)
 	covSD := enumSeqDistance(thorough)
+	covSF := enumStartedFace(thorough)
 	covB["sequence_distance_family"] = covSD
+	covB["started_face_family"] = covSF
 	covB["orders"] = covB["orders"].(int64) + covSD["arrival_orders_run"].(int64)
 	covB["classes_run"] = covB["classes_run"].(int64) + covSD["message_sets"].(int64)
 	covMC := enumMaxConcurrent(thorough, samples)
